@@ -27,7 +27,7 @@ def section_argv(prop, sec, tier, sd):
         argv = [C.PY_VT, "-m", "pyvc.run", "--prop", prop, "--tier", tier]
         if opts.get("functions"):
             argv += ["--functions", ",".join(opts["functions"])]
-        return kind, argv, C.vt_env(), opts.get("timeout", 900 if tier == "quick" else 3000)
+        return kind, argv, C.vt_env({"VERIF_CANARY": "1"} if tier == "thorough" else None), opts.get("timeout", 900 if tier == "quick" else 3000)
     if kind == "frames":
         argv = [C.PY_VT, "-m", "pyvc.frames_run", "--prop", prop, "--tier", tier]
         return kind, argv, C.vt_env(), opts.get("timeout", 600)
@@ -49,6 +49,8 @@ def section_argv(prop, sec, tier, sd):
 
 def run_sections(prop, tier, sd):
     secs = [s for s in P.PROPS[prop]["sections"] if tier == "thorough" or not s[1].get("thorough_only")]
+    if tier == "thorough" and not os.environ.get("VERIF_SELFMUT"):
+        secs = secs + [("selfmut", {})]
     jobs = [section_argv(prop, s, tier, sd) for s in secs]
     out = []
     with concurrent.futures.ThreadPoolExecutor(max_workers=max(1, len(jobs))) as ex:
@@ -108,6 +110,7 @@ def main(argv=None):
     ap.add_argument("--replay")
     ap.add_argument("--selftest", action="store_true")
     ap.add_argument("--list", action="store_true")
+    ap.add_argument("--no-evidence", action="store_true", help="do not rewrite evidence/<id>.json (used by the mutation self-test on scratch trees)")
     a = ap.parse_args(argv)
     if a.list:
         for k, v in sorted(P.PROPS.items()):
@@ -214,6 +217,10 @@ def main(argv=None):
             fl = try_replay(prop, ob, sections, sd, a.tier)
         report(ob, "obligation", fl)
     for b in bounded:
+        if str(b.get("name", "")).startswith("axiom_sampling"):
+            for fl in b.get("failures", [])[:5]:
+                errors.append("assumed contract refuted by the real library (%s): expected %s, got %s" % (fl.get("class"), fl.get("expected"), fl.get("actual")))
+            continue
         # group the failures of a bounded family by class, report one per class
         seen = set()
         for fl in b.get("failures", []):
@@ -238,10 +245,10 @@ def main(argv=None):
         errors.append("zero obligations generated for %s (vacuity guard)" % prop)
 
     # exit code
-    if errors:
+    if violations:
+        code = C.EXIT_VIOLATION          # a decided violation is reported even if some other engine section broke (its errors are printed too)
+    elif errors:
         code = C.EXIT_ENGINE
-    elif violations:
-        code = C.EXIT_VIOLATION
     elif undec:
         code = C.EXIT_UNDECIDED
     else:
@@ -249,7 +256,8 @@ def main(argv=None):
     if code in (C.EXIT_ENGINE, C.EXIT_UNDECIDED):
         out_lines = [ln for ln in out_lines if not ln.startswith("VIOLATION")] if code == C.EXIT_ENGINE and not violations else out_lines
 
-    write_evidence(prop, a.tier, sd, sections, obligations, bounded, by_status, failed, undec, unreach, errors, violations, known_hit, time.time() - t0)
+    if not a.no_evidence and C.REPO == "/repo":
+        write_evidence(prop, a.tier, sd, sections, obligations, bounded, by_status, failed, undec, unreach, errors, violations, known_hit, time.time() - t0)
 
     print("== %s (%s) tier=%s seed=%d repo=%s" % (prop, P.PROPS[prop]["title"], a.tier, sd, C.REPO))
     print("   obligations=%d %s   bounded cases=%d   wall=%.1fs" % (n_total, json.dumps(by_status, sort_keys=True),
